@@ -806,7 +806,38 @@ func runGROWSHRINK(c *Ctx) {
 		if lower {
 			facts = necessary(ir.FactsAt(tcall.Block()), 0)
 		} else {
-			facts = append(necessary(ir.FactsAt(tcall.Block()), 0), sufficient(holder, tcall)...)
+			// shrinking is a disjunction (size at the threshold OR a keyless top layer): the size test has to be
+			// sufficient on its own. A test that is merely necessary (`size <= T && keyless`) leaves trees too tall.
+			// An outcome is sufficient by itself when the test is reached under nothing but the height guard and
+			// the failed alternatives of the same disjunction.
+			suff := sufficient(holder, tcall)
+			isHeight := func(v ssa.Value) bool {
+				bin, ok := v.(*ssa.BinOp)
+				return ok && (mastFieldLoad(bin.X, "height") || mastFieldLoad(bin.Y, "height"))
+			}
+			for _, f := range suff {
+				alone := true
+				for _, g := range ir.FactsAt(f.From) {
+					if g.From == nil || (g.From.Parent() == holder && inCycle(tcall.Block()) && !inCycle(g.From)) {
+						continue // established in front of the loop
+					}
+					if isHeight(g.Cond) {
+						continue
+					}
+					alt := false
+					for _, o := range suff {
+						if o.Cond == g.Cond && o.Truth != g.Truth {
+							alt = true
+						}
+					}
+					if !alt {
+						alone = false
+					}
+				}
+				if alone {
+					facts = append(facts, f)
+				}
+			}
 		}
 		for _, f := range facts {
 			bin, ok := f.Cond.(*ssa.BinOp)
